@@ -220,10 +220,15 @@ impl FunctionExpression for CompactFn {
     }
 
     fn type_def(&self, state: &state::TypeState) -> TypeDef {
-        if self.value.type_def(state).is_array() {
+        let td = self.value.type_def(state);
+
+        if td.is_array() {
             TypeDef::array(Collection::any())
-        } else {
+        } else if td.is_object() {
             TypeDef::object(Collection::any())
+        } else {
+            // the argument may be either: so may the result
+            TypeDef::array(Collection::any()).or_object(Collection::any())
         }
     }
 }
